@@ -40,12 +40,17 @@ def atomic_publish(fn):
         precedes(f, SYNC_ALL, RENAME),
         only_via(f, RENAME, Arm(r"^discr\(try\((call <Result<\(\), std::io::Error> as anyhow::Context.*|call std::fs::File::sync_all)", {"0"}, name="sync_all()? -> Ok")),
         follows(f, RENAME, SYNC_PARENT, exit="ok"),
+        # nothing is written or flushed into the temp file after its fsync (bytes still sitting in a BufWriter when
+        # sync_all runs would be published un-synced by the rename)
+        never(f, anyev(r"as std::io::Write>::(write_all|flush|write)\(", name="write/flush of the temp file"), frm=SYNC_ALL),
         follows(f, WRITE_ALL, SYNC_ALL, exit="ok"),
         only_via(f, stmt(r"^_0 = Result::<\(\), anyhow::Error>::Ok\(", name="return Ok"), Arm(r"^discr\(try\(call (persistence::)?sync_parent_dir", {"0"}, name="sync_parent_dir()? -> Ok")),
     )
 
 
 MOS = [
+    MO("O1.1/snapshot_flush", "Snapshot::save: the BufWriter is flushed before the temp file is fsynced",
+       precedes(P + "Snapshot::save", FLUSH, SYNC_ALL), functions=[("persistence.rs", "save")]),
     MO("O1.1/snapshot", "Snapshot::save: write* < sync_all < rename, rename only after sync_all succeeded, rename followed by parent-dir fsync before Ok",
        atomic_publish("Snapshot::save"), functions=[("persistence.rs", "save")]),
     MO("O1.1/manifest", "Manifest::save: same atomic-publish protocol", atomic_publish("Manifest::save"), functions=[("persistence.rs", "save")]),
